@@ -80,6 +80,7 @@ fn main() {
                     max_ports: get("max_ports", 4),
                     calm: get("calm", 0) != 0,
                     ldrop: get("ldrop", 0) != 0,
+                    bp: get("bp", 0) != 0,
                     ..Default::default()
                 };
                 rt.block_on(chmux_life::scenario(s, &opts));
@@ -158,6 +159,9 @@ fn main() {
             }
             "peer" => {
                 rt.block_on(chmux_peer::scenario(s, get("hostile", 1) != 0));
+            }
+            "acc_cancel" => {
+                rt.block_on(chmux_misc::acc_cancel(s));
             }
             "idle" => {
                 rt.block_on(chmux_misc::idle(s, get("periods", 1000)));
